@@ -415,10 +415,11 @@ class Parser:
                 self.raise_raw_syntax_error(message, last_token.start, last_token.end)
             self.raise_raw_syntax_error("invalid syntax", last_token.start, last_token.end)
 
+        if isinstance(res, ast.AST) and any(not t.string.isascii() for t in self._tokenizer._tokens if t.type == Token.NAME):
+            self._normalize_identifiers(res)  # (refuses names that are no identifiers: before the version check, which is
+            # only for programs that are otherwise accepted)
         if isinstance(res, ast.AST) and self._version_errors:
             self._raise_version_error(res)
-        if isinstance(res, ast.AST) and any(not t.string.isascii() for t in self._tokenizer._tokens if t.type == Token.NAME):
-            self._normalize_identifiers(res)
         if isinstance(res, ast.AST) and any(not t.line.isascii() for t in self._tokenizer._tokens):
             self._columns_to_byte_offsets(res)
         return res
